@@ -214,6 +214,10 @@ class Client:
                 s.inq.clear()
                 k.log("c_rst", self.cid)
                 self.pc += 1
+            elif op == "oob":
+                s.oob = True
+                k.log("c_oob", self.cid)
+                self.pc += 1
             elif op == "mode":
                 self._set_mode(st)
                 self.pc += 1
@@ -475,6 +479,7 @@ class Simulation:
         self.chan_by_cid = {}
         k.on_idle = None
         k.on_finish = None
+        k.on_all_blocked = None
         k.on_step = None
         k.events = []
         for c in self.clients:
